@@ -677,3 +677,32 @@ fn probe_c03_removed_and_replaced_in_one_commit() {
     let g = bob.load_mls_group(&gid).unwrap().unwrap();
     println!("C03 bob's MLS group: is_active={} own_leaf().is_some()={}", g.is_active(), g.own_leaf().is_some());
 }
+
+#[test]
+fn probe_c07_redelivered_proposal_after_its_commit_rolls_back() {
+    // F16 seen from C07: the *same* proposal event handed over again after the commit that covers it was applied
+    let ak = Keys::generate(); let bk = Keys::generate(); let ck = Keys::generate();
+    let alice = create_test_mdk(); let bob = create_test_mdk(); let carol = create_test_mdk();
+    let admins = vec![ak.public_key()];
+    let res = alice.create_group(&ak.public_key(), vec![create_key_package_event(&bob, &bk), create_key_package_event(&carol, &ck)], create_nostr_group_config_data(admins)).unwrap();
+    let gid = res.group.mls_group_id.clone();
+    alice.merge_pending_commit(&gid).unwrap();
+    for (m, i) in [(&bob, 0usize), (&carol, 1usize)] {
+        let w = m.process_welcome(&EventId::from_slice(&[i as u8 + 1; 32]).unwrap(), &res.welcome_rumors[i]).unwrap();
+        m.accept_welcome(&w).unwrap();
+    }
+    // Carol leaves: proposal event; Bob (non-admin) queues it, Alice (admin) commits it
+    let leave = carol.leave_group(&gid).unwrap();
+    println!("C07 bob <- leave proposal: {:?}", bob.process_message(&leave.evolution_event).map(|r| format!("{r:?}").chars().take(50).collect::<String>()).map_err(|e| e.to_string()));
+    std::thread::sleep(std::time::Duration::from_secs(2));
+    let r = alice.process_message(&leave.evolution_event).unwrap();
+    let commit_event = match r { MessageProcessingResult::Proposal(u) => u.evolution_event, other => panic!("unexpected {other:?}") };
+    alice.merge_pending_commit(&gid).unwrap();
+    println!("C07 bob <- commit: {:?}", bob.process_message(&commit_event).map(|r| format!("{r:?}").chars().take(50).collect::<String>()).map_err(|e| e.to_string()));
+    let e1 = bob.get_group(&gid).unwrap().unwrap().epoch;
+    // the proposal event is delivered to Bob once more
+    println!("C07 bob <- the same proposal again: {:?}", bob.process_message(&leave.evolution_event).map(|r| format!("{r:?}").chars().take(60).collect::<String>()).map_err(|e| e.to_string()));
+    let e2 = bob.get_group(&gid).unwrap().unwrap().epoch;
+    let m2 = bob.load_mls_group(&gid).unwrap().unwrap().epoch().as_u64();
+    println!("C07 bob stored epoch before re-delivery = {e1}, after = {e2}, MLS epoch after = {m2}");
+}
